@@ -169,7 +169,7 @@ def shard(tier, seed, shard, nshards):
             history.append((spec, mode, t))
     # history independence: the same specs, first thing in a fresh interpreter
     rnd = random.Random("%s-hist-%d-%d" % (ID, seed, shard))
-    sample = rnd.sample(history, min(len(history), 8 if tier == "quick" else 40))
+    sample = rnd.sample(history, min(len(history), 40 if tier == "quick" else 120))
     # (a) each alone in a fresh process; (b) in-process, after everything else, again
     # one fresh interpreter per shard; it sees the sample in REVERSE order, so the last
     # in-process item is compiled first-thing there and every item has a different history
